@@ -103,6 +103,33 @@ Theorem C13_monitor_accepts_model :
   forall p s, c13_monitor p (run p s) = true.
 Proof. exact monitor_accepts_model. Qed.
 
+(* Soundness of the monitor, for ANY observation list (in particular the
+   implementation's): acceptance implies the order / exactly-once / completion
+   shape, the wake-up discipline, and back-pressure in terms of the observed
+   finished-operation log: when poll i returns Yielded x, x is an emission of
+   some operation j and no operation >= j has been reported finished in polls <= i. *)
+Theorem C13_monitor_sound_order :
+  forall p obs, c13_monitor p obs = true ->
+  exists pre post,
+    results obs = pre ++ post /\
+    Forall running_result pre /\
+    ((post = [] /\ exists later, emits (p_ops p) = yvals pre ++ later) \/
+     (exists n, post = RComplete (p_ret p) :: repeat RStreamEnd n /\ yvals pre = emits (p_ops p))).
+Proof. exact monitor_sound_order. Qed.
+
+Theorem C13_monitor_sound_wakeup :
+  forall p obs, c13_monitor p obs = true ->
+  Forall (fun o => (forall x, o_res o = RYielded x -> o_wd o = true) /\
+                   (o_res o = RPendingP -> o_wd o = true \/ exists k, o_blocked o = Some k)) obs.
+Proof. exact monitor_sound_wakeup. Qed.
+
+Theorem C13_monitor_sound_back_pressure :
+  forall p obs i o x,
+    c13_monitor p obs = true -> nth_error obs i = Some o -> o_res o = RYielded x ->
+    exists j, In (x, j) (owners_from 0 (p_ops p)) /\
+      forall i' o', (i' <= i)%nat -> nth_error obs i' = Some o' -> forall d, In d (o_done o') -> d < j.
+Proof. exact monitor_sound_back_pressure. Qed.
+
 (* ---- non-vacuity ---- *)
 Definition ex_prog : program :=
   {| p_ops := [Yield 1; SelfWake; YieldAll [2; 3]; Wait 0; DropHandle; Yield 9; Wait 1]; p_ret := 7 |}.
@@ -112,15 +139,15 @@ Definition ex_sched : schedule :=
 Example c13_run_results :
   results (run ex_prog ex_sched) =
   [RYielded 1; RPendingP; RYielded 2; RYielded 3; RPendingP; RPendingP; RPendingP; RComplete 7; RStreamEnd].
-Proof. reflexivity. Qed.
+Proof. vm_compute. reflexivity. Qed.
 
 Example c13_emits : emits (p_ops ex_prog) = [1; 2; 3].
-Proof. reflexivity. Qed.
+Proof. vm_compute. reflexivity. Qed.
 
 (* the yield is returned by the poll that runs it; the next operation finishes only in the next poll *)
 Example c13_done_logs :
   map o_done (run ex_prog ex_sched) = [[]; [0]; [1]; []; [2]; [3; 4; 5]; []; [6]; []].
-Proof. reflexivity. Qed.
+Proof. vm_compute. reflexivity. Qed.
 
 (* a Pending without a wake: the task is parked on Wait 0; the spurious poll after
    the channel was closed by DropHandle finds it parked on Wait 1 *)
@@ -128,38 +155,38 @@ Example c13_wakes :
   map (fun o => (o_wb o, o_wd o, o_blocked o)) (run ex_prog ex_sched) =
   [(false, true, None); (false, true, None); (false, true, None); (false, true, None);
    (false, false, Some 0); (true, true, Some 1); (false, false, Some 1); (true, false, None); (false, false, None)].
-Proof. reflexivity. Qed.
+Proof. vm_compute. reflexivity. Qed.
 
 Example c13_disciplined_and_idle :
   disciplined true (run ex_prog ex_sched) = true /\ idle_end (init ex_prog) true ex_sched.
-Proof. split; [reflexivity|]. cbn. split; reflexivity. Qed.
+Proof. vm_compute. repeat split; reflexivity. Qed.
 
 (* the bound of C13_liveness_bound is attained *)
 Example c13_bound_tight :
   let p := {| p_ops := [Wait 0; DropHandle; Wait 1]; p_ret := 0 |} in
   let s := [Poll; Complete 0; Poll; Poll; Complete 1; Poll; Poll] in
   disciplined true (run p s) = true /\ length (run p s) = (wake_budget p + 2)%nat.
-Proof. split; reflexivity. Qed.
+Proof. vm_compute. split; reflexivity. Qed.
 
 (* an undisciplined, starving consumer: nothing is lost, the run is a prefix *)
 Example c13_prefix :
   results (run ex_prog [Complete 1; Poll; Complete 0; Poll]) = [RYielded 1; RPendingP].
-Proof. reflexivity. Qed.
+Proof. vm_compute. reflexivity. Qed.
 
 Example c13_monitor_rejects_reorder :
   c13_monitor {| p_ops := [Yield 1; Yield 2]; p_ret := 0 |}
     [Ob false (RYielded 2) true [] None false] = false.
-Proof. reflexivity. Qed.
+Proof. vm_compute. reflexivity. Qed.
 
 Example c13_monitor_rejects_run_ahead :
   c13_monitor {| p_ops := [Yield 1; Yield 2]; p_ret := 0 |}
     [Ob false (RYielded 1) true [0] None false] = false.
-Proof. reflexivity. Qed.
+Proof. vm_compute. reflexivity. Qed.
 
 Example c13_monitor_rejects_lost_wakeup :
   c13_monitor {| p_ops := [SelfWake]; p_ret := 0 |}
     [Ob false RPendingP false [] None false] = false.
-Proof. reflexivity. Qed.
+Proof. vm_compute. reflexivity. Qed.
 
 Print Assumptions C13_order_exactly_once.
 Print Assumptions C13_back_pressure.
@@ -169,3 +196,6 @@ Print Assumptions C13_liveness_bound.
 Print Assumptions C13_liveness_progress.
 Print Assumptions C13_liveness.
 Print Assumptions C13_monitor_accepts_model.
+Print Assumptions C13_monitor_sound_order.
+Print Assumptions C13_monitor_sound_wakeup.
+Print Assumptions C13_monitor_sound_back_pressure.
